@@ -12,6 +12,7 @@ mod c01;
 mod c02;
 mod c03;
 mod c09;
+mod c11;
 mod c13;
 mod c14;
 mod c16;
@@ -81,6 +82,15 @@ fn main() {
         ("search", "C09") => {
             let mut s = util::Search::new();
             c09::search(&tier, seed, &mut s);
+            s.finish();
+        }
+        ("corr", "C11") => {
+            let mut c = util::Corr::new();
+            c11::corr(&tier, seed, &mut c);
+        }
+        ("search", "C11") => {
+            let mut s = util::Search::new();
+            c11::search(&tier, seed, &mut s);
             s.finish();
         }
         ("corr", "C13") => {
